@@ -1,4 +1,5 @@
 """C11 - a type is a property of the bag of values."""
+import ast
 import itertools
 import json
 import random
@@ -12,7 +13,7 @@ from . import oracle, streams
 
 PROP = "C11"
 PROP_FILE = "props/C11.v"
-TARGETS = ["props/C11.vo"]
+TARGETS = ["props/C11.vo", "extract/RunnerPython.vo"]
 
 
 def answers(ts, types, x):
@@ -101,10 +102,10 @@ def check_seq(ctx, s, rnd, backend):
     if backend == "numpy" and not (isinstance(x, np.ndarray) and x.ndim == 1):
         return fails
     n = len(x)
-    if n < 2 or n > 6:
+    if n < 2 or n > 9:
         return fails
     base = answers(ts, types, x)
-    perms = list(itertools.permutations(range(n))) if n <= 4 else [tuple(reversed(range(n)))]
+    perms = list(itertools.permutations(range(n))) if n <= 4 else [tuple(range(n)), tuple(reversed(range(n))), tuple(range(1, n)) + (0,), (n - 1,) + tuple(range(n - 1))]
     for p in perms[1:]:
         v = x[list(p)] if backend == "numpy" else [x[i] for i in p]
         a = answers(ts, types, v)
@@ -121,7 +122,7 @@ def check_seq(ctx, s, rnd, backend):
 def oracle_fn(ctx, item, s):
     rnd = ctx["rnd"]
     fails = check_pandas(ctx, s, rnd)
-    if item["family"] in ("bx", "special", "mixed", "family", "cross"):
+    if item["family"] in ("bx", "special", "mixed", "family", "cross") or item["pool"] in ("str+odd", "str+none+odd"):
         fails += check_seq(ctx, s, rnd, "numpy")
         fails += check_seq(ctx, s, rnd, "list")
     return fails
@@ -152,9 +153,161 @@ def hetero_stream(rnd, n):
             vals.insert(pos, odd)
             for dt in ("None", "object"):
                 out.append({"recipe": streams.series_recipe(vals, dt), "family": "hetero", "pool": "str+odd", "dtype": dt, "nulls": "?", "null": None, "len": 7, "index": "None"})
+    # a missing value inside the prefix and the odd value just behind it (prefix tests that count rows before / after dropping missing values)
+    for odd in ["b'x'", "1", "1.5", "datetime.date(2020, 1, 1)"]:
+        for none_pos in (0, 1, 4):
+            for odd_pos in (4, 5, 6):
+                vals = ["'a'", "'b'", "'c'", "'d'", "'e'", "'f'"]
+                vals.insert(odd_pos, odd)
+                vals.insert(none_pos, "None")
+                out.append({"recipe": streams.series_recipe(vals, "object"), "family": "hetero", "pool": "str+none+odd", "dtype": "object", "nulls": "?", "null": None, "len": 8, "index": "None"})
     for a, b in [("'2020-01-01'", "'01/02/2020'"), ("'1'", "'a'"), ("'1.5'", "'2'"), ("'True'", "'yes'"), ("'POINT (1 2)'", "'x'")]:
         out.append({"recipe": streams.series_recipe([a, b]), "family": "hetero", "pool": "strpair", "dtype": "None", "nulls": "?", "null": None, "len": 2, "index": "None"})
     return out
+
+
+PY_POOL = ["None", "True", "False", "0", "1", "-5", "10 ** 30", "0.0", "1.5", "float('nan')", "float('-inf')", "0j", "(1+2j)", "fractions.Fraction(1, 3)",
+           "decimal.Decimal('0')", "decimal.Decimal('-2.5')", "''", "'a'", "'1.5'", "b''", "b'a'", "datetime.datetime(2020, 1, 1)",
+           "datetime.datetime(1999, 5, 6, 7, 8, 9)", "datetime.date(2020, 1, 1)", "datetime.time(0, 0)", "datetime.time(1, 2)", "datetime.timedelta(0)",
+           "datetime.timedelta(days=1)", "pathlib.PurePosixPath('/a')", "pathlib.PurePosixPath('a')", "pathlib.PureWindowsPath('C:/a')", "pathlib.Path('/tmp')",
+           "pathlib.Path('/nonexistent-verif-xyz')", "pathlib.Path('nonexistent-relative-verif')", "pathlib.Path(DATA, 'img.png')", "pathlib.Path(DATA, 'file.html')",
+           "urlparse('http://a.b/c')", "urlparse('')", "ipaddress.ip_address('127.0.0.1')", "ipaddress.ip_address('::1')", "uuid.UUID(int=0)", "uuid.UUID(int=12345)",
+           "FQDA('a', 'b.c')", "wkt.loads('POINT (1 2)')", "(1, 2)", "()", "[1]", "[]", "{'a': 1}", "{}", "object()"]
+_PYNS = None
+
+
+def pyns():
+    """namespace in which the source texts of PY_POOL (and `pylist:` replay recipes) are evaluated"""
+    global _PYNS
+    if _PYNS is None:
+        import datetime
+        import decimal
+        import fractions
+        import ipaddress
+        import os
+        import pathlib
+        import uuid
+        from urllib.parse import urlparse
+
+        from shapely import wkt
+        from visions.types.email_address import FQDA
+        _PYNS = {"datetime": datetime, "decimal": decimal, "fractions": fractions, "ipaddress": ipaddress, "pathlib": pathlib, "uuid": uuid, "urlparse": urlparse,
+                 "wkt": wkt, "FQDA": FQDA, "DATA": os.path.join(C.REPO, "src/visions/test/data")}
+    return _PYNS
+
+
+def abstract_pyval(v):
+    """(kind index, truthy, nonneg, abs, exists, image) or None when the element is outside lib/PyValues.v"""
+    import pathlib
+
+    from visions.types.file import path_exists
+    from visions.utils.images.image_utils import path_is_image
+
+    from . import gen_python
+    k = gen_python.kind_of(v)
+    if k is None:
+        return None
+    try:
+        truthy = bool(v)
+    except Exception:  # noqa
+        return None
+    nonneg = bool(v >= 0) if k in ("PBool", "PInt") else False
+    ab = bool(v.is_absolute()) if isinstance(v, pathlib.PurePath) else False
+    ex = bool(path_exists(v)) if isinstance(v, pathlib.Path) else False
+    im = bool(path_is_image(v)) if ex else False
+    return [gen_python.KINDS.index(k), int(truthy), int(nonneg), int(ab), int(ex), int(im)]
+
+
+def py_type_table():
+    import visions
+
+    from . import gen_shipped
+    names = ["Generic"] + sorted(n for n in gen_shipped.shipped_types(C.REPO) if n != "Generic")
+    return names, [getattr(visions.types, n) for n in names]
+
+
+def py_vector(types, x):
+    vec = []
+    for t in types:
+        try:
+            vec.append(1 if x in t else 0)
+        except Exception as e:  # noqa
+            vec.append("raise:" + type(e).__name__)
+    return vec
+
+
+def check_pylist(texts, names, types, memo=None):
+    """membership of a pure Python list in every shipped type under all row orders (n <= 4; reversal and rotation above) and 2x / 3x repetition"""
+    def vec(ts):
+        key = tuple(ts)
+        if memo is not None and key in memo:
+            return memo[key]
+        v = py_vector(types, [eval(t, pyns()) for t in ts])  # noqa: S307 (texts are written by this harness only)
+        if memo is not None:
+            memo[key] = v
+        return v
+    n = len(texts)
+    if n == 0:
+        return []
+    base = vec(texts)
+    if 2 <= n <= 4:
+        variants = [(f"rows permuted {list(p)}", [texts[i] for i in p]) for p in itertools.permutations(range(n)) if list(p) != list(range(n))]
+    else:
+        variants = [("rows reversed", texts[::-1]), ("rows rotated by one", texts[1:] + texts[:1])] if n > 1 else []
+    variants += [("repeated twice", texts + texts), ("repeated three times", texts * 3)]
+    for label, v in variants:
+        a = vec(v)
+        if a != base:
+            diff = [nm for nm, u, w in zip(names, base, a) if u != w]
+            return [{"what": f"pure Python list: {label}: membership in {diff} changes", "class": f"pylist:membership:{','.join(diff)}", "variant": label, "kind": "membership",
+                     "types": diff, "backend": "pylist", "recipe": "pylist:[" + ", ".join(texts) + "]", "before": [nm for nm, u in zip(names, base) if u == 1],
+                     "after": [nm for nm, u in zip(names, a) if u == 1]}]
+    return []
+
+
+def python_phase(run, info, rnd, deep):
+    """(1) correspondence: generated Python-list membership predicates (extracted) vs `list in T` for all shipped types;
+    (2) oracle on the implementation: the same pure lists under permutation / repetition.  Returns the oracle's failures."""
+    with warnings.catch_warnings():
+        warnings.simplefilter("ignore")
+        names, types = py_type_table()
+        pool = [eval(t, pyns()) for t in PY_POOL]  # noqa: S307
+        absd = [abstract_pyval(v) for v in pool]
+        idx = [i for i, a in enumerate(absd) if a is not None]
+        cases = [[]] + [[i] for i in idx] + [[i, j] for i in idx for j in idx]
+        for _ in range(6000 if deep else 1500):
+            cases.append([rnd.choice(idx) for _ in range(rnd.randint(3, 7))])
+        # a run of one value followed by one odd value (prefix peeks: first element, first five): reversal puts the odd value first
+        bases = [i for i in idx if PY_POOL[i] in ("'a'", "1", "1.5", "True", "(1+2j)", "datetime.datetime(2020, 1, 1)", "datetime.date(2020, 1, 1)", "datetime.time(1, 2)",
+                                                  "datetime.timedelta(days=1)", "pathlib.Path('/tmp')", "uuid.UUID(int=12345)", "urlparse('http://a.b/c')", "None")]
+        cases = cases[:1 + len(idx)] + [[b] * k + [e] for b in bases for e in idx if e != b for k in (5, 6)] + cases[1 + len(idx):]
+        memo, fails = {}, []
+        for c in cases:
+            if len(fails) < 5:
+                fails += check_pylist([PY_POOL[i] for i in c], names, types, memo)
+    run.cov["python_list_oracle_cases"] = len(cases)
+    run.cov["evaluations"] = run.cov.get("evaluations", 0) + len(memo)
+    if not (info["build_ok"] and info["gen"]["python"]["ok"]):
+        return fails
+    ok, out = C.build_driver("python")
+    run.oblig("extract+link driver python (ExtrOcamlBasic)", "correspondence", ok, out[-400:])
+    if not ok:
+        return fails
+    bad = [PY_POOL[i] for i, a in enumerate(absd) if a is None]
+    run.oblig("every element of the Python pool is inside the universe of lib/PyValues.v", "correspondence", not bad, bad[:3])
+    lines = [" ".join(str(n) for i in c for n in absd[i]) for c in cases]
+    res = C.run_driver("python", lines)
+    mism = []
+    for c, line in zip(cases, res):
+        m = [int(z) for z in line.split(",")]
+        vec = memo[tuple(PY_POOL[i] for i in c)] if c else py_vector(types, [])
+        if m != vec:
+            mism.append({"list": "[" + ", ".join(PY_POOL[i] for i in c) + "]", "differences (type, model, implementation)": [(n, a, b) for n, a, b in zip(names, m, vec) if a != b]})
+    run.oblig(f"correspondence: generated Python-list contains_ops (extracted) vs `list in T` for all {len(names)} shipped types on {len(lines)} lists "
+              f"(all lists of length <= 2 over a pool of {len(idx)} elements of every value kind, random lists of length 3-7)", "correspondence", not mism, mism[:3])
+    run.cov["python_list_model_cases"] = len(lines)
+    run.cov["python_list_model_disagreements"] = len(mism)
+    return fails
 
 
 def replay(path):
@@ -162,7 +315,14 @@ def replay(path):
     if "recipe" not in r:
         print("replay names a broken obligation, no input to re-run:", [o["name"] for o in r.get("broken_obligations", [])])
         return 1
-    f = replay_entry({"replay": r})
+    if r["recipe"].startswith("pylist:"):
+        names, types = py_type_table()
+        with warnings.catch_warnings():
+            warnings.simplefilter("ignore")
+            src = ast.parse(r["recipe"][7:], mode="eval").body
+            f = check_pylist([ast.unparse(e) for e in src.elts], names, types)
+    else:
+        f = replay_entry({"replay": r})
     print("replay:", [x["what"] for x in f] if f else "property holds on this input")
     return 1 if f else 0
 
@@ -188,13 +348,15 @@ def run(args):
         return replay(args.replay)
     run = C.Run(PROP, args.tier, args.seed)
     rnd = random.Random(args.seed)
-    info = C.std_coq_phase(run, ["shipped", "pandas"], TARGETS, PROP_FILE)
+    info = C.std_coq_phase(run, ["shipped", "pandas", "python"], TARGETS, PROP_FILE)
+    py_fails = python_phase(run, info, rnd, args.tier == "thorough")
     deep = args.tier == "thorough" or bool(run.failed_obligations())
     items = (streams.bank_stream() + streams.special_stream() + streams.file_stream() + hetero_stream(rnd, 1500 if deep else 250)
              + streams.bx_stream(2, rnd, limit=6000 if deep else 900) + streams.family_stream(rnd, 3000 if deep else 400)
              + streams.mixed_stream(rnd, 1500 if deep else 200))
     ctx = make_ctx(rnd)
     new, seen_known, kn = oracle.run_oracle(run, PROP, items, oracle_fn, ctx)
+    new += [f for f in py_fails if oracle.classify(PROP, f, kn) is None]
     nviol = oracle.report(run, PROP, new, seen_known, kn, replay_known=lambda e: bool(replay_entry(e)))
     if not nviol and run.failed_obligations():
         rep = {"broken_obligations": run.failed_obligations(),
@@ -207,6 +369,7 @@ def run(args):
     run.cov["samples"] = [items[120]["recipe"], items[-1]["recipe"]]
     run.cov["trusted_base"] += [
         "translators vfw/gen_pandas.py + vfw/gen_shipped.py (regenerated this run); abstraction lib/Values.v (no index, no name: ignoring them is checked dynamically here)",
-        "theorem covers `seq in T` for the 18 prefix-free types; detect_type / infer_type invariance and the 6 prefix-testing types are decided on the implementation only (relations contain whole-column parsers such as pd.to_datetime)",
+        "translator vfw/gen_python.py (backends/python/series_utils.py decorators + every Sequence contains_op, regenerated this run); abstraction lib/PyValues.v (kind, truthiness, >= 0, path flags); isinstance facts per kind measured; elements whose bool() raises (pd.NA) or of unlisted subclasses are outside the universe; extraction ExtrOcamlBasic + conv.ml + driver_python.ml",
+        "theorem covers `seq in T` for the 18 prefix-free types (pandas) and all 24 types (Python lists); detect_type / infer_type invariance and the 6 prefix-testing types are decided on the implementation only (relations contain whole-column parsers such as pd.to_datetime)",
     ]
     return run.finish("proof")
